@@ -20,7 +20,7 @@ PROPS_MODULE = 'Props.C12'
 COQ_TARGETS = ['theories/Extract/ExtractC12.vo']
 REQUIRED_THEOREMS = ['C12_literal_grammar', 'C12_print', 'C12_print_placeable', 'C12_operands', 'C12_operands_beyond', 'C12_operands_total',
                      'C12_cldr_trailing_zeros', 'C12_number_opts', 'C12_number_opts_resolved', 'C12_numeric_key', 'C12_select',
-                     'C12_select_expression', 'C12_exact_key_first', 'C12_locale_partial']
+                     'C12_select_expression', 'C12_exact_key_first', 'C12_locale_partial', 'C12_select_literal']
 MODEL = 'c12'
 HARNESS_BINS = ['number_run']
 RELEASE_TOO = True
@@ -729,8 +729,10 @@ def gen_literal_patterns(rng, tier):
     for v in list(range(0, 19)) + [19, 20, 21, 25, 30]:
         for f in digit_patterns(rng, v):
             for i in (ints if v <= 18 else ints[:12]):
-                if tier == 'quick' and rng.random() < 0.55:
+                if tier == 'quick' and rng.random() < 0.4:
                     continue
+                if sig_digits(i, f if v else None) > GUARD and rng.random() < 0.85:
+                    continue                              # keep the share of class-D15 literals small
                 neg = rng.random() < 0.3
                 zeros = rng.choice([0, 0, 0, 1, 2, 5])
                 lits.add(lit_str(i, f if v else None, neg, zeros))
@@ -769,8 +771,15 @@ def gen_numeric_arguments(rng, tier):
             float('nan'), float('inf'), float('-inf')]
     for x in f64s:
         cases.append(num_case(v_f64(x)))
-    for _ in range(50 if tier == 'quick' else 2000):
-        x = rng.choice([rng.uniform(-1000, 1000), rng.uniform(0, 1), rng.random() * 10 ** rng.randint(-10, 20), float(rng.randint(0, 10 ** 6)) / 100])
+    for _ in range(300 if tier == 'quick' else 20000):
+        # random binary floats are written with at most 15 significant digits: their Display text is then that decimal (beyond it the
+        # shortest round-trip digits can be a tie, which Rust and Python's repr break differently: 0x1.7a094f3b999bap+49 = ...007.25
+        # prints ...007.3 in Rust and ...007.2 in Python; the case must carry Rust's text)
+        nd = rng.randint(1, 15)
+        digits = str(rng.randint(1, 10 ** nd - 1))
+        x = float(digits + 'e' + str(rng.randint(-nd - 6, 6)))
+        if rng.random() < 0.3:
+            x = -x
         if model_valid_f64(x):
             cases.append(num_case(v_f64(x)))
     for x in (0.1, 1.0 / 3.0, 3.4e38, 1e-45, 16777217.0, 1.0, 2.5, 0.5):
@@ -848,7 +857,7 @@ def gen_number_options(rng, tier):
         cases.append(number_case(mnum('1', rand_own_opts(rng)), [(k, v_numstr('2.50'))]))
     for x in (v_str(b'1'), b'none', b'error'):
         cases.append(number_case(x, [(b'type', v_str(b'ordinal'))]))
-    for _ in range(1500 if tier == 'quick' else 30000):
+    for _ in range(4000 if tier == 'quick' else 100000):
         x = rng.choice([mnum(rng.choice(['0', '1', '1.5', '-3', '12.125', '1000000', 'NaN']), rand_own_opts(rng)),
                         v_numstr(rng.choice(['1', '1.0', '2.50', '-0.0'])), v_int('i32', rng.randint(-5, 200)), v_f64(rng.choice([0.5, 2.0, 1e21]))])
         cases.append(number_case(x, rand_named(rng)))
@@ -862,7 +871,7 @@ LOCALE_FORMS = {'en': ['en', 'en-US', 'en-GB'], 'pl': ['pl', 'pl-PL'], 'ru': ['r
 def gen_select_grid(rng, tier):
     """per locale: the category chosen by the real bundle on the operand grid, cardinal and ordinal"""
     cases = []
-    imax = 130 if tier == 'quick' else 200
+    imax = 200
     ints = list(range(0, imax + 1)) + [200, 201, 202, 203, 211, 212, 213, 222, 1000, 1001, 1002, 1003, 1011, 1012, 1013, 1021, 1022, 1023, 1111,
                                        10000, 1000000, 1000001, 1000002, 1000005, 2000000, 10 ** 9, 10 ** 12 + 1]
     fracs_small = [None, '0', '1', '5', '00', '10', '01', '50', '000', '001', '100']
@@ -941,7 +950,7 @@ def gen_select_keys(rng, tier):
     for sv in (b'one', b'other', b'1', b'John', b''):
         cases.append(sel_case(['en'], sel_arg(v_str(sv)), [[b'id', b'one'], [b'num', b'1'], [b'id', b'John'], [b'id', b'other'], [b'id', b'dflt']]))
     # random key lists
-    for _ in range(1500 if tier == 'quick' else 40000):
+    for _ in range(4000 if tier == 'quick' else 120000):
         nk = rng.randint(1, 6)
         keys = []
         for _ in range(nk):
